@@ -168,6 +168,10 @@ pub struct Walker {
     pub layers: Vec<Layer>,
     /// H2 taps between all layers (and a pass-through observer closure last in the chain).
     pub taps: bool,
+    /// H3: the stack is built with type erasure between the layers (any depth); otherwise it is the
+    /// statically composed type, exactly as client code would write it (at most five layers).
+    #[serde(default)]
+    pub erased: bool,
 }
 
 #[derive(Serialize, Deserialize, Clone, Debug, PartialEq, Eq)]
